@@ -147,6 +147,7 @@ def run_check(prop, cases, tier, seed, level='model_checking', functions=(), bou
     replays = 0
     unreplayed = 0
     per_msg = {}
+    per_msg_fail = {}
     broken = list(post_broken)
     seen_known = set()
     for res in results:
@@ -172,8 +173,9 @@ def run_check(prop, cases, tier, seed, level='model_checking', functions=(), bou
                 continue
             k0 = match_known(known, prop, res['case'], msg)
             msgkey = (kind, msg)
-            per_msg[msgkey] = per_msg.get(msgkey, 0) + 1
-            if per_msg[msgkey] > MAX_PER_MSG or replays >= MAX_REPLAYS:
+            # (a model that does not replay does not use up the budget of its message class: other cases with the
+            # same message may still replay; failed attempts have their own, larger cap)
+            if per_msg.get(msgkey, 0) >= MAX_PER_MSG or per_msg_fail.get(msgkey, 0) >= 6 * MAX_PER_MSG or replays >= MAX_REPLAYS:
                 unreplayed += 1
                 continue
             d = driver.write_replay(prop, re.sub(r'[^A-Za-z0-9_.-]', '_', res['case'] + '_' + hashlib.md5(msg.encode()).hexdigest()[:6]),
@@ -181,6 +183,10 @@ def run_check(prop, cases, tier, seed, level='model_checking', functions=(), bou
             rep, out = driver.run_replay(d)
             replays += 1
             open(os.path.join(d, 'replay.log'), 'w').write(out if isinstance(out, str) else str(out))
+            if rep:
+                per_msg[msgkey] = per_msg.get(msgkey, 0) + 1
+            else:
+                per_msg_fail[msgkey] = per_msg_fail.get(msgkey, 0) + 1
             if rep:
                 k = match_known(known, prop, res['case'], msg)
                 if k:
